@@ -497,9 +497,9 @@ var c02Strings = []string{"", " ", "abc", " 1", "1 ", "--1", "+", "-", "0x10", "
 func c02Hex(s string) string { return "s:" + hex.EncodeToString([]byte(s)) }
 
 func c02Gen(tier string, rng *rand.Rand, emit func(string)) map[string]interface{} {
-	nRand := 30
+	nRand := 250
 	if tier == "thorough" {
-		nRand = 1500
+		nRand = 4000
 	}
 	grid := c02IntGrid()
 	f64g := c02F64Grid()
